@@ -114,14 +114,18 @@ def allocate_spec(ctx: Ctx):
             z3.And(amount(ph, p) - x < qu, x - amount(ph, p) < qu)
             for p, x in zip(ps, xs)]))
 
+    def rem_zero(ps, rem, ph):
+        return z3.Implies(z3.And(has, ctx_truth(disperse)), amount(ph, rem) == 0)
+
     def rem_bound(ps, rem, ph):
         r = amount(ph, rem)
-        dis = ctx_truth(disperse)
-        return z3.Implies(has, z3.And(
-            z3.Implies(dis, r == 0),
-            z3.Implies(z3.Not(dis), z3.And(r < n * qu, -r < n * qu)),
-            z3.Implies(z3.And(z3.Not(dis), half),
-                       z3.And(2 * r <= n * qu, -2 * r <= n * qu))))
+        return z3.Implies(z3.And(has, z3.Not(ctx_truth(disperse))),
+                          z3.And(r < n * qu, -r < n * qu))
+
+    def rem_bound_half(ps, rem, ph):
+        r = amount(ph, rem)
+        return z3.Implies(z3.And(has, z3.Not(ctx_truth(disperse)), half),
+                          z3.And(2 * r <= n * qu, -2 * r <= n * qu))
 
     return req, [Case("apportioned", TRUE, ensures=[
         ("own-type-unit-exact", lambda cx, o: on(o, own)),
@@ -129,7 +133,9 @@ def allocate_spec(ctx: Ctx):
         ("exact-shares-without-quantum", lambda cx, o: on(o, exact_shares)),
         ("multiples-of-quantum", lambda cx, o: on(o, multiples)),
         ("less-than-one-quantum-from-share", lambda cx, o: on(o, deviation)),
+        ("dispersed-remainder-zero", lambda cx, o: on(o, rem_zero)),
         ("remainder-bound", lambda cx, o: on(o, rem_bound)),
+        ("remainder-bound-half-modes", lambda cx, o: on(o, rem_bound_half)),
     ], props=["C06"])]
 
 
